@@ -286,16 +286,54 @@ def wH264Emit (st0 st : State) (op : WriteOp) (changed : Bool) : State × WriteR
 def extrReject (prev : Option Int) (dts : Int) : Bool :=
   match prev with | some p => decide (dts < p) | none => false
 
+/-- the h264 track after the first-random-access gate (DTS extractor created / fed with the SPS) -/
+def h264T1 (t : TrackSt) (op : WriteOp) : TrackSt :=
+  { t with firstRA := true, extrSPS := t.extrSPS || decide (op.par ≠ 0) }
+/-- … and after the extractor accepted the DTS -/
+def h264T2 (t : TrackSt) (op : WriteOp) : TrackSt :=
+  { h264T1 t op with extrPrev := some op.dts }
+
 /-- h264 after `paramsStep`: gate, DTS extractor, emit -/
 def wH264Gate (st0 st : State) (op : WriteOp) (changed : Bool) : State × WriteRes :=
   let t := st.track op.track
   if !t.firstRA && !op.ra then (st, .ok) else
-  let t := { t with firstRA := true, extrSPS := t.extrSPS || decide (op.par ≠ 0) }
-  let st := st.setTrack op.track t
-  if !t.extrSPS then (st, .err) else
-  if extrReject t.extrPrev op.dts then (st, .err) else
-  let st := st.setTrack op.track { t with extrPrev := some op.dts }
-  wH264Emit st0 st op changed
+  let st1 := st.setTrack op.track (h264T1 t op)
+  if !(h264T1 t op).extrSPS then (st1, .err) else
+  if extrReject (h264T1 t op).extrPrev op.dts then (st1, .err) else
+  wH264Emit st0 (st1.setTrack op.track (h264T2 t op)) op changed
+
+/-- the three ways through the h264 gate -/
+theorem wH264Gate_cases (st0 st : State) (op : WriteOp) (changed : Bool) :
+    (((st.track op.track).firstRA = false ∧ op.ra = false) ∧ wH264Gate st0 st op changed = (st, .ok)) ∨
+    (¬ ((st.track op.track).firstRA = false ∧ op.ra = false) ∧
+      wH264Gate st0 st op changed = (st.setTrack op.track (h264T1 (st.track op.track) op), .err)) ∨
+    (¬ ((st.track op.track).firstRA = false ∧ op.ra = false) ∧
+      (h264T1 (st.track op.track) op).extrSPS = true ∧
+      extrReject (h264T1 (st.track op.track) op).extrPrev op.dts = false ∧
+      wH264Gate st0 st op changed =
+        wH264Emit st0 ((st.setTrack op.track (h264T1 (st.track op.track) op)).setTrack op.track
+          (h264T2 (st.track op.track) op)) op changed) := by
+  unfold wH264Gate
+  simp only
+  by_cases h1 : (!(st.track op.track).firstRA && !op.ra) = true
+  · left
+    simp only [h1, if_true]
+    simp only [Bool.and_eq_true, Bool.not_eq_true'] at h1
+    exact ⟨h1, trivial⟩
+  · right
+    have h1' : ¬ ((st.track op.track).firstRA = false ∧ op.ra = false) := by
+      simpa [Bool.and_eq_true, Bool.not_eq_true'] using h1
+    simp only [h1, if_false, Bool.false_eq_true]
+    by_cases h2 : (!(h264T1 (st.track op.track) op).extrSPS) = true
+    · left; simp only [h2, if_true]; exact ⟨h1', trivial⟩
+    · simp only [h2, if_false, Bool.false_eq_true]
+      by_cases h3 : extrReject (h264T1 (st.track op.track) op).extrPrev op.dts = true
+      · left; simp only [h3, if_true]; exact ⟨h1', trivial⟩
+      · right
+        simp only [h3, if_false, Bool.false_eq_true]
+        refine ⟨h1', ?_, ?_, trivial⟩
+        · simpa using h2
+        · simpa using h3
 
 def h264Absorb (st : State) (op : WriteOp) : State :=
   let t := st.track op.track
@@ -338,6 +376,19 @@ theorem write_eq (st : State) (op : WriteOp) :
       | .opus => fmp4WriteMany st op.track (buildOpus op.pays op.sizes op.durs op.pts op.ntp)
       | .aac => wAac st op := by
   rfl
+
+/-- parameter sets differing from the stored ones are stored and set `pendingParamsChange` -/
+def paramsAbsorb (st : State) (ti par : Nat) : State :=
+  if par ≠ 0 ∧ par ≠ (st.track ti).params then
+    { (st.setTrack ti { st.track ti with params := par }) with pending := true }
+  else st
+
+theorem paramsStep_eq (st : State) (ti par : Nat) (ra : Bool) :
+    paramsStep st ti par ra =
+      if ra && (paramsAbsorb st ti par).pending then ({ paramsAbsorb st ti par with pending := false }, true)
+      else (paramsAbsorb st ti par, false) := rfl
+
+theorem h264Absorb_eq (st : State) (op : WriteOp) : h264Absorb st op = paramsAbsorb st op.track op.par := rfl
 
 theorem paramsStep_frame (st : State) (ti par : Nat) (ra : Bool) :
     (paramsStep st ti par ra).1.cfg = st.cfg ∧ (paramsStep st ti par ra).1.streams = st.streams := by
@@ -397,22 +448,13 @@ theorem Step_wH264Emit {st0 st : State} {L : Nat} (h : GI st L) (op : WriteOp) (
 
 theorem Step_wH264Gate {st0 st : State} {L : Nat} (h : GI st L) (op : WriteOp) (changed : Bool) :
     Step st (wH264Gate st0 st op changed).1 L := by
-  unfold wH264Gate
-  simp only
-  split
-  · exact Step.refl h
-  · split
-    · exact Step_setTrack h _ _
-    · by_cases hx : extrReject (st.track op.track).extrPrev op.dts = true
-      · simp only [hx, if_true]; exact Step_setTrack h _ _
-      · simp only [hx, if_false, Bool.false_eq_true]
-        have h1 := Step_setTrack h op.track
-          { st.track op.track with firstRA := true, extrSPS := (st.track op.track).extrSPS || decide (op.par ≠ 0) }
-        have h2 := h1.trans (Step_setTrack h1.gi op.track
-          { firstRA := true, params := (st.track op.track).params, next := (st.track op.track).next,
-            samples := (st.track op.track).samples, startDTS := (st.track op.track).startDTS,
-            extrSPS := (st.track op.track).extrSPS || decide (op.par ≠ 0), extrPrev := some op.dts })
-        exact h2.trans (Step_wH264Emit h2.gi op changed)
+  rcases wH264Gate_cases st0 st op changed with ⟨_, e⟩ | ⟨_, e⟩ | ⟨_, _, _, e⟩
+  · rw [e]; exact Step.refl h
+  · rw [e]; exact Step_setTrack h _ _
+  · rw [e]
+    have h1 := Step_setTrack h op.track (h264T1 (st.track op.track) op)
+    have h2 := h1.trans (Step_setTrack h1.gi op.track (h264T2 (st.track op.track) op))
+    exact h2.trans (Step_wH264Emit h2.gi op changed)
 
 theorem Step_wH264 {st : State} {L : Nat} (h : GI st L) (op : WriteOp) : Step st (wH264 st op).1 L := by
   unfold wH264
